@@ -626,6 +626,13 @@ class Blockwise(ArrayExpr):
         if needs_coarse:
             return self._accept_slice_coarse(slice_expr, full_index, adjust_chunks)
 
+        if type(self) is Blockwise and not self.align_arrays and sliced_indices:
+            # The block function of a map_blocks call is arbitrary user code and
+            # need not be element-wise: f(x)[i:j] is f(x[i:j]) only for whole
+            # blocks.  Select the blocks the slice needs and apply the rest of it
+            # on top.
+            return self._accept_slice_coarse(slice_expr, full_index, adjust_chunks or {})
+
         # Convert integers to size-1 slices for pushdown
         slice_index = tuple(slice(idx, idx + 1) if isinstance(idx, Integral) else idx for idx in full_index)
         has_integers = any(isinstance(idx, Integral) for idx in full_index)
